@@ -34,9 +34,9 @@ ASSUMPTIONS = [
     "crash = process death with completed syscalls durable; loss of un-synced data on power failure is not modelled",
 ]
 BOUNDS = {
-    "quick": "6 initial files x {60 single operations x 2 seams; 16^2 core operation pairs x 2 seams}; 16^3 core triples x 2 initial files (pmerge seam); "
-    "crash sweep: 6 initial files x 16 core operations, every crash point and torn write",
-    "thorough": "6 initial files x {60 single ops; 60x16 + 16x60 pairs} x 2 seams; 16^3 triples x 6 initial files x 2 seams; crash sweep: 6 files x 60 operations",
+    "quick": "6 initial files x {60 single operations x 2 seams; 16^2 core operation pairs x 2 seams}; 16^3 core triples x 2 initial files (pmerge seam) "
+    "= ~12k sequences; crash sweep: 6 initial files x the core operations that change the file (60 scenarios), every crash point and torn write",
+    "thorough": "6 initial files x {60 single ops; 60x16 + 16x44 pairs} x 2 seams; 16^3 triples x 6 initial files x 2 seams = ~70k sequences; crash sweep: 6 files x 60 operations (227 scenarios)",
 }
 
 # ---------------------------------------------------------------------------------------------
@@ -173,9 +173,10 @@ def check_sequence(path, fidx, ops, mode):
         shape = "none" if slot is None else "zero" if slot == "0" else "1char" if len(slot) == 1 else "dotted" if "." in slot else "multichar"
         names.add(f"{op[0]}:slot-{shape}:{'changes' if s2 != s else 'noop'}")
         names.add(f"form-{op[3]}")
-        exp_res = "ok" if (changed or mode == "pmerge") else "KeyError"
-        if res != exp_res:
-            return bad(i, f"{op[0]} {atom_text(*op[1:])} -> {res}, expected {exp_res}", got=[res], exp=sorted(s2)), names
+        # removing an absent entry may raise KeyError (update_worldset swallows it) or do nothing: both leave the set alone
+        allowed = ("ok",) if (changed or mode == "pmerge") else ("KeyError", "ok")
+        if res not in allowed:
+            return bad(i, f"{op[0]} {atom_text(*op[1:])} -> {res}, expected {' or '.join(allowed)}", got=[res], exp=sorted(s2)), names
         s = s2
         mem = sorted(str(a) for a in world)
         if mem != sorted(s):
@@ -183,11 +184,11 @@ def check_sequence(path, fidx, ops, mode):
         if mode == "pmerge":
             flushed = flushed or changed
             got = file_lines(path)
-            if flushed:
-                if sorted(got) != sorted(s):
-                    return bad(i, f"file holds {got!r}, expected exactly {sorted(s)!r}", got=got, exp=sorted(s)), names
-            elif open(path, encoding="utf8").read() != text:
-                return bad(i, "nothing was removed yet but the file was rewritten", got=got, exp=sorted(s)), names
+            if not flushed:
+                # nothing had to change yet: the file may be untouched (comments and all) or rewritten
+                got = [l for l in got if not l.startswith(("#", "@"))]
+            if sorted(got) != sorted(s):
+                return bad(i, f"file holds {got!r}, expected exactly {sorted(s)!r}", got=got, exp=sorted(s)), names
     if mode == "api":
         try:
             world.flush()
@@ -196,13 +197,12 @@ def check_sequence(path, fidx, ops, mode):
         got = file_lines(path)
         if sorted(got) != sorted(s):
             return bad(len(ops) - 1, f"after flush the file holds {got!r}, expected exactly {sorted(s)!r}", got=got, exp=sorted(s)), names
-    if flushed or mode == "api":
-        try:
-            again = sorted(str(a) for a in WorldFile(path, gid=os.getgid()))
-        except Exception as e:
-            again = [f"unparseable: {type(e).__name__}"]
-        if again != sorted(s):
-            return bad(len(ops) - 1, f"a fresh WorldFile parses {again!r}, expected {sorted(s)!r}", got=again, exp=sorted(s)), names
+    try:
+        again = sorted(str(a) for a in WorldFile(path, gid=os.getgid()))
+    except Exception as e:
+        again = [f"unparseable: {type(e).__name__}"]
+    if again != sorted(s):
+        return bad(len(ops) - 1, f"a fresh WorldFile parses {again!r}, expected {sorted(s)!r}", got=again, exp=sorted(s)), names
     return None, names
 
 
@@ -339,6 +339,8 @@ def work(task):
             samples = [{"sweep_file": FILES[fidx], "op": ops[1]}]
     finally:
         shutil.rmtree(base, ignore_errors=True)
+    # the runner keeps at most 40 candidates per task: put the ones no classifier explains first
+    viol.sort(key=lambda v: any(f(v) for f in CLASSIFIERS.values()))
     return {"evals": evals, "classes": classes, "viol": viol, "samples": samples, "counters": counters}
 
 
